@@ -122,6 +122,23 @@ def handle (j : Json) : Except String Json := do
     match clauseMatchNoSeg rx c cl with
     | .ok b => return Json.mkObj [("out", Json.mkObj [("match", b), ("err", Json.null)])]
     | .error e => return Json.mkObj [("out", Json.mkObj [("match", false), ("err", logClassOut e.logClass)])]
+  else if kind == "accessor" then
+    -- the exported accessors with an arbitrary index and possibly a nil clause
+    let cl ← clause (← fld j "clause")
+    let i := intD j "idx"
+    let isNil := boolD j "nil"
+    let v ← jval (fldD j "v")
+    let bad := isNil || i < 0
+    let n := i.toNat
+    let rxOut : Json := if bad then Json.null else
+      match cl.valueAsRegexp rx n with
+      | some p => Json.str p
+      | none => Json.null
+    return Json.mkObj [("out", Json.mkObj [
+      ("find", if isNil then false else cl.findValue v),
+      ("rx", rxOut),
+      ("sv", semverOut (if bad then none else cl.valueAsSemVer n)),
+      ("t", optTimeOut (if bad then none else cl.valueAsTimestamp n))])]
   else if kind == "preflag" then
     let f ← flag (← fld j "flag")
     return Json.mkObj [("out", flagOut (preprocessFlag rx f))]
